@@ -16,6 +16,7 @@ RULE = ("seeded histories: a pool of 2-4 factor objects and 1-3 constraint objec
 ASSUMPTIONS = ["fake peers return only genuine models of the clauses they receive"]
 BUDGET = {"quick": 300, "thorough": 900}
 RUNS = {"quick": 400, "thorough": 60000}
+THOROUGH_RUNS = 1000        # the thorough tier of this (expensive) check: a fixed range sized to stay within ~15 minutes
 CKINDS = ["atmost", "atleast", "exactlyrow", "exactlyk", "pin", "exclude"]
 
 
